@@ -163,19 +163,25 @@ def ob_render_parse(name, nsym):
     if not tmpls or not hasattr(base, "from_string"):
         return ok("no template", nontrivial=False, paths=0)
     sc = getattr(base, "salt_chars", None)
-    if "salt" not in getattr(base, "setting_kwds", ()) or not isinstance(sc, str) or getattr(base, "_salt_is_bytes", False):
-        return ok("%s: no text salt" % name, nontrivial=False, paths=0)
+    if "salt" not in getattr(base, "setting_kwds", ()):
+        return ok("%s: no salt" % name, nontrivial=False, paths=0)
     unwrap = getattr(H, "_unwrap_hash", lambda x: x)
     orig = base.from_string(unwrap(tmpls[0]))
     salt0 = orig.salt
-    if not isinstance(salt0, str) or len(salt0) < 1:
-        return ok("%s: empty salt" % name, nontrivial=False, paths=0)
-    k = min(nsym, len(salt0))
-    chars = [z3.BitVec("s%d" % i, 21) for i in range(k)]
-    cons = z3.And(*[z3.Or(*[c == ord(x) for x in sc]) for c in chars])
-    if base.name.startswith("bcrypt") or name.endswith("bcrypt"):
-        pass
-    ssalt = SStr(chars + list(salt0[k:]), [1] * len(salt0))
+    if isinstance(salt0, bytes) and len(salt0) >= 1:
+        # binary salts (pbkdf2 family, scrypt, scram, salted ldap digests, fshp ...): every byte value, so that every symbol of
+        # the salt's text encoding (incl. the 62nd/63rd of each base64 dialect) occurs
+        k = min(nsym, len(salt0))
+        chars = [z3.BitVec("s%d" % i, 8) for i in range(k)]
+        cons = z3.BoolVal(True)
+        ssalt = SBytes(chars + list(salt0[k:]))
+    elif isinstance(sc, str) and isinstance(salt0, str) and len(salt0) >= 1:
+        k = min(nsym, len(salt0))
+        chars = [z3.BitVec("s%d" % i, 21) for i in range(k)]
+        cons = z3.And(*[z3.Or(*[c == ord(x) for x in sc]) for c in chars])
+        ssalt = SStr(chars + list(salt0[k:]), [1] * len(salt0))
+    else:
+        return ok("%s: no salt field to vary" % name, nontrivial=False, paths=0)
     rounds_list = [None]
     if "rounds" in base.setting_kwds:
         mn, mx, df = base.min_rounds, base.max_rounds, base.default_rounds
@@ -216,7 +222,7 @@ def ob_render_parse(name, nsym):
                 if base.name.startswith("bcrypt") and isinstance(p.exc, ValueError):
                     continue          # bcrypt refuses salts whose padding bits are set: documented
                 r, mdl = check(p.cond())
-                s_ = "".join(chr(mdl.eval(c, True).as_long()) for c in chars) + salt0[k:] if r == "sat" else salt0
+                s_ = _wsalt(mdl, chars, salt0, k) if r == "sat" else (salt0 if isinstance(salt0, str) else list(salt0))
                 return violation("%s: salt %r rounds %r: render/parse raises %r" % (name, s_, rounds, p.exc), "roundtrip:%s:render-parse" % base.name,
                                  {"module": "harness.c07", "func": "replay_render_parse", "args": {"name": name, "salt": s_, "rounds": rounds, "flag": [flag, fval]}})
             text, bsalt, brounds, bident, bchk, again = p.result
@@ -224,7 +230,7 @@ def ob_render_parse(name, nsym):
                       z3.BoolVal(bident == getattr(orig, "ident", None)), _eq(bchk, orig.checksum), _eq(again, text)]
             r, mdl = valid(z3.And(*claims), p.cond())
             if r == "sat":
-                s_ = "".join(chr(mdl.eval(c, True).as_long()) for c in chars) + salt0[k:]
+                s_ = _wsalt(mdl, chars, salt0, k)
                 return violation("%s: salt %r rounds %r: parsed settings differ from the rendered ones" % (name, s_, rounds),
                                  "roundtrip:%s:render-parse" % base.name,
                                  {"module": "harness.c07", "func": "replay_render_parse", "args": {"name": name, "salt": s_, "rounds": rounds, "flag": [flag, fval]}})
@@ -234,7 +240,16 @@ def ob_render_parse(name, nsym):
               "re-renders identically (%d paths)" % (name, k, rounds_list, npaths), paths=npaths)
 
 
+def _wsalt(mdl, chars, salt0, k):
+    vals = [mdl.eval(c, True).as_long() for c in chars]
+    if isinstance(salt0, bytes):
+        return vals + list(salt0[k:])          # JSON-friendly: list of ints
+    return "".join(chr(v) for v in vals) + salt0[k:]
+
+
 def replay_render_parse(name, salt, rounds, flag=None):
+    if isinstance(salt, list):
+        salt = bytes(salt)
     H, tmpls = c08.templates(name)
     base = getattr(H, "wrapped", H)
     unwrap = getattr(H, "_unwrap_hash", lambda x: x)
